@@ -9,7 +9,7 @@ from vp.engine import SubCheck, machine_base, replay_history
 
 PROPERTY = "C15"
 RULE = (
-    "(extended 3) setters: the slots are filled by the library's own Preloads.set_* methods (drawn subset and order) from two fits whose inversions were built on identical, separately constructed inputs (fully read or untouched), then four successive inversions (both requested formalisms, twice) use that one Preloads object. (extended 2) more_slots: the remaining public slots an imaging inversion consults (data_vector_mapper, curvature_matrix_mapper_diag, mapper_operated_mapping_matrix_dict, linear_func_operated_mapping_matrix_dict, data_linear_func_matrix_dict), taken from a w-tilde inversion on identical separately built inputs (dictionaries keyed by that inversion's own objects), every one of the 2^5-1 subsets x both formalisms, combined with a drawn subset of the main slots; the history machine draws them too. (extended) data and noise in flux units of 2**k, k in {-10,0,10,14,18}. "
+    "(extended 4) setters_varied: fit_0 and fit_1 share dataset and mappers and differ in exactly one of 2-3 linear function lists (first / middle / last; lists before, after or around the mappers); after all Preloads.set_* calls the inversions of model 1, model 0 and model 1 again with that Preloads object must equal their own no-preload baselines. (extended 3) setters: the slots are filled by the library's own Preloads.set_* methods (drawn subset and order) from two fits whose inversions were built on identical, separately constructed inputs (fully read or untouched), then four successive inversions (both requested formalisms, twice) use that one Preloads object. (extended 2) more_slots: the remaining public slots an imaging inversion consults (data_vector_mapper, curvature_matrix_mapper_diag, mapper_operated_mapping_matrix_dict, linear_func_operated_mapping_matrix_dict, data_linear_func_matrix_dict), taken from a w-tilde inversion on identical separately built inputs (dictionaries keyed by that inversion's own objects), every one of the 2^5-1 subsets x both formalisms, combined with a drawn subset of the main slots; the history machine draws them too. (extended) data and noise in flux units of 2**k, k in {-10,0,10,14,18}. "
     "subsets: C04-style scenarios (1..3 linear objects mixing rectangular / Delaunay mappers and function lists, "
     "square/non-square, signed PSFs) x both formalisms x every one of the 2^5 subsets of the preload slots {w_tilde, "
     "curvature_matrix, regularization_matrix, log_det_regularization_matrix_term, operated_mapping_matrix} "
@@ -351,6 +351,92 @@ def body_setters(case, ctx):
 
 
 # ---------------------------------------------------------------------------------------------
+# setters on two fits that differ in ONE linear function list: what the setters decide to keep must be valid for both
+@st.composite
+def setters_varied_case(draw):
+    c = draw(scene.scenarios(max_objs=2, img_kwargs=dict(max_inner=4, max_k=3, unit_exponents=(0,)), obj_kwargs=dict(max_sub=2, max_mesh=4)))
+    c["n_funcs"] = draw(st.integers(2, 3))
+    c["differs"] = draw(st.integers(0, 2))
+    c["func_positions"] = draw(st.sampled_from(["front", "back", "around"]))
+    c["use_w"] = draw(st.booleans())
+    c["setter_order"] = draw(st.permutations(list(range(len(SETTERS)))))
+    return c
+
+
+def _with_funcs(case, scale_of):
+    """The case's mappers plus n_funcs one-column function lists (deterministic columns from the pixel index); function
+    list j is scaled by scale_of(j)."""
+    import copy
+    c = copy.deepcopy(case)
+    n = len(c["data"])
+    mappers = [o for o in c["objs"] if o["type"] != "func"]
+    funcs = []
+    for j in range(case["n_funcs"]):
+        col = [[scale_of(j) * (0.3 + ((7 * i + 3 * j) % 5) * 0.25 - (0.4 if (i + j) % 3 == 0 else 0.0))] for i in range(n)]
+        funcs.append({"type": "func", "matrix": col, "func_kind": "signed", "reg": None})
+    pos = case["func_positions"]
+    if pos == "front":
+        c["objs"] = funcs + mappers
+    elif pos == "back":
+        c["objs"] = mappers + funcs
+    else:
+        c["objs"] = funcs[:1] + mappers + funcs[1:]
+    return c
+
+
+def body_setters_varied(case, ctx):
+    """fit_0 and fit_1 share the dataset and the mappers and differ in exactly one of 2-3 linear function lists (the situation
+    the setters exist for). Whatever Preloads.set_* decides to keep must leave the inversion of EITHER model equal to its own
+    no-preload baseline."""
+    import types
+    import autoarray as aa
+    from autoarray import exc
+    kinds = [o["type"] for o in case["objs"]]
+    if all(k == "func" for k in kinds):
+        ctx.label("varied:no-mapper-skipped")
+        return
+    k = case["differs"] % case["n_funcs"]
+    ctx.label("varied:differs-%s" % ("last" if k == case["n_funcs"] - 1 else ("first" if k == 0 else "middle")), "varied:funcs-%s" % case["func_positions"],
+              "varied:%s" % ("w_tilde" if case["use_w"] else "mapping"))
+    ctx.nt(k != case["n_funcs"] - 1)
+    models = [_with_funcs(case, lambda j: 1.0), _with_funcs(case, lambda j: 1.75 if j == k else 1.0)]
+    use_w = case["use_w"]
+    bases = [Baseline(m, use_w) for m in models]
+    fits = []
+    for m in models:
+        sc = scene.build_scene(m)
+        inv = aa.Inversion(dataset=sc.dataset, linear_obj_list=sc.objs, settings=_settings(aa, use_w))
+        fits.append(types.SimpleNamespace(inversion=inv, noise_map=sc.dataset.noise_map, dataset=sc.dataset, data=sc.dataset.data))
+    pre = aa.Preloads()
+    for i in case["setter_order"]:
+        getattr(pre, SETTERS[i])(fit_0=fits[0], fit_1=fits[1])
+    filled = sorted(kk for kk, v in vars(pre).items() if v is not None and kk != "use_w_tilde")
+    for kk in filled:
+        ctx.label("varied-filled:%s" % kk)
+    for which in (1, 0, 1):
+        m = models[which]
+        sc = scene.build_scene(m)
+        inv = aa.Inversion(dataset=sc.dataset, linear_obj_list=sc.objs, settings=_settings(aa, use_w), preloads=pre)
+        is_w = type(inv).__name__ == "InversionImagingWTilde"
+        if is_w != use_w:
+            base = Baseline(m, is_w)
+        else:
+            base = bases[which]
+        prefix = "setters-varied/%s/model-%d" % ("w_tilde" if is_w else "mapping", which)
+        for q in QUANTITIES:
+            try:
+                got = _read(inv, q)
+            except exc.InversionException:
+                ctx.check(q in base.errs, prefix + "/exception-mismatch", "raised InversionException reading %s, baseline did not (filled %s)" % (q, "+".join(filled)))
+                continue
+            if q in base.errs:
+                ctx.fail(prefix + "/exception-mismatch", "baseline raised reading %s, preloaded did not (filled %s)" % (q, "+".join(filled)))
+                continue
+            _compare(ctx, q, got, base, prefix)
+
+
+
+# ---------------------------------------------------------------------------------------------
 class Interp:
     """History interpreter: one shared Preloads object, several inversions, reads in any order."""
 
@@ -455,6 +541,7 @@ SUBCHECKS = [
     SubCheck("subsets", body_subsets, strategy=subsets_case(), examples={"quick": 320, "thorough": 3200}, shards={"quick": 16, "thorough": 16}),
     SubCheck("more_slots", body_more_slots, strategy=more_slots_case(), examples={"quick": 320, "thorough": 3200}, shards={"quick": 16, "thorough": 16}),
     SubCheck("setters", body_setters, strategy=setters_case(), examples={"quick": 240, "thorough": 2400}, shards={"quick": 16, "thorough": 16}),
+    SubCheck("setters_varied", body_setters_varied, strategy=setters_varied_case(), examples={"quick": 160, "thorough": 1600}, shards={"quick": 8, "thorough": 16}),
     SubCheck("history", replay_history(Interp), machine=machine, examples={"quick": 960, "thorough": 8000},
              shards={"quick": 16, "thorough": 16}, steps={"quick": 12, "thorough": 25}),
 ]
